@@ -6,6 +6,10 @@ props = [json.loads(l) for l in open(os.path.join(VERIF, 'properties.jsonl'))]
 ids = [p['id'] for p in props]
 
 CHECKS = {
+ 'C16': dict(engine='E1 enum', category='exploration', design_ref='3 C16',
+   technique='exhaustive class trees x declared/runtime class pairs x positions x protocols x polymorphic flag against reference codecs and the loopback client',
+   text='Every rooted class tree with up to 3 (quick) / 5 (thorough) classes and depth <= 3, each class adding one or two fields; every class as declared type with every descendant as runtime class; as argument, return value, field of another object, customised variant, repeated member, and array holding every ordered pair of descendants; XmlDocument, Soap11, Soap12 with polymorphic on/off and JSON, YAML, MessagePack with ignore_wrappers=False and polymorphic on/off. The reference codecs send subclass instances with a type marker and decode responses; every xsi:type in an emitted document must resolve through the namespace declarations in scope there; with polymorphism off exactly the declared fields arrive; object members must be in ancestors-first order; the loopback client must reconstruct the same class.',
+   note='Subclasses are placed in the namespace of their base, as the property says.'),
  'C11': dict(engine='E1 enum', category='exploration', design_ref='3 C11',
    technique='exhaustive service-list permutations x naming channels x registered names and near-misses, per-function invocation records',
    text='Application layouts with 2-4 services whose methods draw their public names (function name, _operation_name, _in_message_name) from an adversarial pool (get/Get/GET/get_/_get/getx/ge/get.x and a Cyrillic homoglyph); every permutation of the service list; nine naming channels (XML root tag qualified / other namespace / unqualified, SOAP 1.1 and 1.2 body child, JSON, YAML, MessagePack key, msgpack-rpc name field, HttpRpc URL path, JSON over WSGI); every registered name and every near-miss (five case flips, seven one-character prefixes and suffixes, every deletion, doubled, Response-suffixed, empty, space-prefixed). A registered name must run exactly its function under every permutation; a near-miss runs nothing and ends in a Client fault (404 over HTTP); four colliding layouts must be refused at construction in every service order.',
